@@ -30,6 +30,7 @@ type Scenario struct {
 	Name      string
 	Bound     int  // preemption bound in the plain build; -1 = all interleavings
 	RaceBound int  // bound in the race build; -2 = not run there
+	MaxSteps  int  // step budget of one execution (0 = 20000); beyond it the execution is a livelock
 	Delay     bool // delay bounding (every non-default thread choice costs) instead of preemption bounding
 	// Body builds fresh state (sequentially, pass-through mode), spawns the model
 	// threads on s and returns the observation record they fill in.
@@ -186,7 +187,7 @@ func worker(scenarios []Scenario, sh string, budget time.Duration) {
 			outcomes[out] = true
 			return f
 		}
-		stats := vrt.Explore(vrt.Options{MaxBound: bound, Cache: true, Delay: sc.Delay, Stop: func() bool { return time.Now().After(scDeadline) || atomic.LoadInt32(&overMem) != 0 }},
+		stats := vrt.Explore(vrt.Options{MaxBound: bound, Cache: true, Delay: sc.Delay, MaxSteps: sc.MaxSteps, Stop: func() bool { return time.Now().After(scDeadline) || atomic.LoadInt32(&overMem) != 0 }},
 			body, func(x *vrt.Exec) bool {
 				st.Steps += int64(x.Steps)
 				f := judge(x)
@@ -202,7 +203,7 @@ func worker(scenarios []Scenario, sh string, budget time.Duration) {
 				// replay twice with tracing; the same schedule must fail the same way
 				var traces [2][]string
 				for n := 0; n < 2; n++ {
-					y := vrt.Run(vrt.RunConfig{Prefix: x.Choices, Trace: true, Delay: sc.Delay}, body)
+					y := vrt.Run(vrt.RunConfig{Prefix: x.Choices, Trace: true, Delay: sc.Delay, MaxSteps: sc.MaxSteps}, body)
 					traces[n] = y.Trace
 					g := judge(y)
 					if g == nil || g.Sig != f.Sig {
@@ -234,7 +235,7 @@ func worker(scenarios []Scenario, sh string, budget time.Duration) {
 			withCache := outcomes
 			outcomes = map[string]bool{}
 			bad := false
-			st2 := vrt.Explore(vrt.Options{MaxBound: bound, Cache: false, Delay: sc.Delay, Stop: func() bool { return time.Now().After(scDeadline) }},
+			st2 := vrt.Explore(vrt.Options{MaxBound: bound, Cache: false, Delay: sc.Delay, MaxSteps: sc.MaxSteps, Stop: func() bool { return time.Now().After(scDeadline) }},
 				body, func(x *vrt.Exec) bool {
 					if f := judge(x); f != nil && !known[strings.ReplaceAll(f.Sig, " ", "_")] {
 						bad = true
@@ -495,7 +496,7 @@ func replayFile(scenarios []Scenario, file string) {
 			continue
 		}
 		var obs any
-		x := vrt.Run(vrt.RunConfig{Prefix: doc.Replay.Choices, Trace: true, Delay: sc.Delay}, func(s *vrt.Sched) { obs = sc.Body(s) })
+		x := vrt.Run(vrt.RunConfig{Prefix: doc.Replay.Choices, Trace: true, Delay: sc.Delay, MaxSteps: sc.MaxSteps}, func(s *vrt.Sched) { obs = sc.Body(s) })
 		for _, l := range x.Trace {
 			fmt.Println("  ", l)
 		}
